@@ -60,13 +60,14 @@ getStartIndex(
     // We always subtract 1 for C-style index, since
     // XPath indexes from 1.  
 
-    // If we end up with NaN, INF, or -INF, then no possible index
+    // If we end up with NaN or INF, then no possible index
     // can be greater than or equal to that, so just return
     // the start index as the length of the string.  That
     // will result in an empty string, which is what we want.
+    // (Every index is greater than -INF: that case is handled
+    // by the next branch.)
     if (DoubleSupport::isNaN(theSecondArgValue) == true ||
-        DoubleSupport::isPositiveInfinity(theSecondArgValue) == true ||
-        DoubleSupport::isNegativeInfinity(theSecondArgValue) == true)
+        DoubleSupport::isPositiveInfinity(theSecondArgValue) == true)
     {
         return theStringLength;
     }
@@ -112,7 +113,6 @@ getSubstringLength(
 {
     assert(theStartIndex < theSourceStringLength);
     assert(DoubleSupport::isNaN(theSecondArgValue) == false);
-    assert(DoubleSupport::isNegativeInfinity(theSecondArgValue) == false);
     assert(DoubleSupport::isPositiveInfinity(theSecondArgValue) == false);
 
     typedef XalanDOMString::size_type   size_type;
@@ -138,7 +138,8 @@ getSubstringLength(
         }
         else if (DoubleSupport::isPositiveInfinity(theThirdArgValue) == true)
         {
-            return theMaxLength;
+            // -INF + INF is NaN, and no position is less than NaN.
+            return DoubleSupport::isNegativeInfinity(theSecondArgValue) == true ? 0 : theMaxLength;
         }
         else
         {
